@@ -169,6 +169,11 @@ class Translator:
                     e.slice.lower is not None and e.slice.upper is not None:
                 return '(sliceM %s %s %s)' % (self.expr(e.value, env, cname), self.expr(e.slice.lower, env, cname),
                                              self.expr(e.slice.upper, env, cname))
+        if getattr(self, 'effect_mode', None) == 'gen':
+            if isinstance(e, ast.Call) and isinstance(e.func, ast.Attribute) and e.func.attr == 'get_all' and \
+                    isinstance(e.func.value, ast.Name) and e.func.value.id == 'self' and len(e.args) == 2 and not e.keywords:
+                # the abstract method of the subclass: whatever get_all the storage has
+                return '(pagerGetAllM %s %s %s)' % (env['self'], self.expr(e.args[0], env, cname), self.expr(e.args[1], env, cname))
         if getattr(self, 'effect_mode', None) == 'audit':
             if isinstance(e, ast.Call) and isinstance(e.func, ast.Attribute) and e.func.attr == 'apm' and \
                     isinstance(e.func.value, ast.Name) and e.func.value.id == 'self' and len(e.args) == 1 and not e.keywords:
@@ -252,6 +257,20 @@ class Translator:
                     return '(isRuleLikeM %s)' % self.expr(e.args[0], env, cname)
                 if f.id == 'isinstance' and len(e.args) == 2 and isinstance(e.args[1], ast.Name):
                     return '(isinstanceM %s "%s")' % (self.expr(e.args[0], env, cname), e.args[1].id)
+                if f.id == 'map' and len(e.args) == 2 and isinstance(e.args[0], ast.Lambda) and \
+                        len(e.args[0].args.args) == 1 and not e.args[0].args.defaults:
+                    # map(lambda x: E, xs), consumed at once by all() / list(): the list of the values of E
+                    self.fresh += 1
+                    x = e.args[0].args.args[0].arg
+                    nm = 'c%d_%s' % (self.fresh, x)
+                    env2 = dict(env)
+                    env2[x] = '(pure %s)' % nm
+                    return '(listCompM %s fun %s => %s)' % (self.expr(e.args[1], env, cname), nm,
+                                                           self.expr(e.args[0].body, env2, cname))
+                if f.id == 'isinstance' and len(e.args) == 2 and isinstance(e.args[1], ast.Tuple) and \
+                        sorted(getattr(x, 'id', '?') for x in e.args[1].elts) == ['Rule', 'dict', 'str']:
+                    a = self.expr(e.args[0], env, cname)
+                    return '(pyOr (isinstanceM %s "str") (fun _ => (isRuleLikeM %s)))' % (a, a)
                 if f.id == '__append__' and len(e.args) == 2:
                     return '(appendM %s %s)' % (self.expr(e.args[0], env, cname), self.expr(e.args[1], env, cname))
                 if f.id == 'enumerate' and len(e.args) == 1:
@@ -304,6 +323,18 @@ class Translator:
             if isinstance(f, ast.Attribute) and f.attr == 'items' and not e.args and isinstance(f.value, ast.Attribute) and \
                     f.value.attr == 'context' and isinstance(f.value.value, ast.Name) and f.value.value.id in env:
                 return '(contextItemsM %s)' % env[f.value.value.id]
+            if isinstance(f, ast.Attribute) and isinstance(f.value, ast.Name) and f.value.id == 'self' and \
+                    f.attr in getattr(self, 'policy_emitted', ()):
+                # a method of Policy translated into a definition of its own (self is an ordinary parameter there)
+                names, binds = [], []
+                for a in [f.value] + list(e.args):
+                    self.fresh += 1
+                    names.append('a%d' % self.fresh)
+                    binds.append(self.expr(a, env, cname))
+                inner = '(%s_Policy %s)' % (f.attr.strip('_'), ' '.join(names))
+                for nm, val in reversed(list(zip(names, binds))):
+                    inner = '(bindM %s fun %s => %s)' % (val, nm, inner)
+                return inner
             if isinstance(f, ast.Attribute) and isinstance(f.value, ast.Name) and f.value.id == 'self' and \
                     f.attr in self.emitted:
                 # a method of the same class that was translated into a definition of its own
@@ -381,6 +412,8 @@ class Translator:
                     out.add('__w')               # an effect on the world the method acts on
                 if Translator._is_store_call(n):
                     out.add('__w')
+                if isinstance(n, ast.Yield):
+                    out.add('__y')               # what the generator has yielded so far
         return out
 
     @staticmethod
@@ -522,6 +555,55 @@ class Translator:
             hoisted = self._hoist_store_call(s, rest, env, cname, end, brk)
             if hoisted is not None:
                 return hoisted
+        if getattr(self, 'effect_mode', None) == 'gen':
+            if isinstance(s, ast.Expr) and isinstance(s.value, ast.Yield) and s.value.value is not None:
+                # yield x: one more item of what the generator produces
+                s = ast.Assign(targets=[ast.Name(id='__y', ctx=ast.Store())],
+                               value=ast.Call(func=ast.Name(id='__append__', ctx=ast.Load()),
+                                              args=[ast.Name(id='__y', ctx=ast.Load()), s.value.value], keywords=[]))
+            elif isinstance(s, ast.Return) and s.value is None:
+                return env['__y']
+            elif isinstance(s, ast.While) and isinstance(s.test, ast.Constant) and s.test.value is True and not s.orelse:
+                # while True: a state-passing loop that is left by return (ending the generator) only; a fuel argument bounds the
+                # number of rounds (the equivalence theorem is stated for every fuel, the model's own loop has the same bound)
+                self.fresh += 1
+                n = self.fresh
+                carried = sorted(self._assigned(s.body) & set(env))
+                st, k, b, r = 's%d' % n, 'k%d' % n, 'b%d' % n, 'r%d' % n
+                env2 = dict(env)
+                for i, name in enumerate(carried):
+                    env2[name] = '(pure (stGet %s %d))' % (st, i)
+
+                def vals(e):
+                    return '[%s]' % ', '.join(self._vterm(e[name]) for name in carried)
+                body = self.block(s.body, env2, cname, end=lambda e: '(%s %s)' % (k, vals(e)),
+                                  brk=lambda e: '(%s %s)' % (b, vals(e)))
+                env3 = dict(env)
+                for i, name in enumerate(carried):
+                    env3[name] = '(pure (stGet %s %d))' % (r, i)
+                return '(whileS fuel (fun %s %s %s =>\n      %s)\n      %s\n      (fun %s => %s))' % (
+                    st, k, b, body, vals(env), r, self.block(rest, env3, cname, end, brk))
+        if getattr(self, 'effect_mode', None) == 'obj':
+            def set_self(name_t, val_t):
+                self.fresh += 1
+                o = 'o%d' % self.fresh
+                env2 = dict(env)
+                env2['self'] = '(pure %s)' % o
+                return '(objSetK %s %s %s fun %s =>\n      %s)' % (env['self'], name_t, val_t, o,
+                                                                  self.block(rest, env2, cname, end, brk))
+            if isinstance(s, ast.Expr) and isinstance(s.value, ast.Call) and isinstance(s.value.func, ast.Attribute) and \
+                    isinstance(s.value.func.value, ast.Name):
+                c = s.value
+                if c.func.value.id == 'self' and c.func.attr in getattr(self, 'policy_emitted', ()):
+                    # called for its exception only
+                    return '(bindM %s fun _ =>\n      %s)' % (self.expr(c, env, cname), self.block(rest, env, cname, end, brk))
+                if c.func.value.id == 'object' and c.func.attr == '__setattr__' and len(c.args) == 3 and \
+                        isinstance(c.args[0], ast.Name) and c.args[0].id == 'self':
+                    return set_self(self.expr(c.args[1], env, cname), self.expr(c.args[2], env, cname))
+            if isinstance(s, ast.Assign) and len(s.targets) == 1 and isinstance(s.targets[0], ast.Subscript) and \
+                    isinstance(s.targets[0].value, ast.Attribute) and s.targets[0].value.attr == '__dict__' and \
+                    isinstance(s.targets[0].value.value, ast.Name) and s.targets[0].value.value.id == 'self':
+                return set_self(self.expr(s.targets[0].slice, env, cname), self.expr(s.value, env, cname))
         if audit:
             t = self._audit_stmt(s, rest, env, cname, end, brk)
             if t is not None:
@@ -671,8 +753,10 @@ class Translator:
         if isinstance(s, ast.Assign) and len(s.targets) == 1 and isinstance(s.targets[0], ast.Tuple) and \
                 isinstance(s.value, ast.Tuple) and len(s.targets[0].elts) == len(s.value.elts) and \
                 all(isinstance(t, ast.Name) for t in s.targets[0].elts) and \
-                all(isinstance(v, ast.Constant) for v in s.value.elts):
-            # a, b = c1, c2 with constants on the right: the order of the single assignments cannot matter
+                all(isinstance(v, ast.Constant) or (isinstance(v, ast.Name) and
+                                                    v.id not in [t.id for t in s.targets[0].elts]) for v in s.value.elts):
+            # a, b = c1, c2 with constants (or names that are not assigned here) on the right: the order of the single
+            # assignments cannot matter
             singles = [ast.Assign(targets=[t], value=v) for t, v in zip(s.targets[0].elts, s.value.elts)]
             return self.block(singles + rest, env, cname, end, brk)
         if '__w' in env and isinstance(s, ast.Expr) and isinstance(s.value, ast.Call) and \
@@ -889,7 +973,7 @@ def translate_parser(repo):
     return '\n'.join(out) + '\n', [('parser', c, []) for c in done], [('parser', c, r) for c, r in failed]
 
 
-POLICY_METHODS = ['_calculate_type']
+POLICY_METHODS = ['_calculate_type', '_check_field_type', '__setattr__']
 
 
 def translate_policy(repo):
@@ -903,10 +987,17 @@ def translate_policy(repo):
             params = [a.arg for a in f.args.args]
             tr.attrs, tr.fresh = set(), 0
             env = {p: '(pure p_%s)' % p for p in params}          # `self` is an ordinary (object) parameter here
-            body = tr.block(f.body, env, 'Policy')
+            if m == '__setattr__':
+                # the object is what the method acts on: the two writes are effects, the result is (None, the object)
+                tr.effect_mode = 'obj'
+                body = tr.block(f.body, env, 'Policy', end=lambda e: '(pairM cNone %s)' % e['self'])
+                tr.effect_mode = None
+            else:
+                body = tr.block(f.body, env, 'Policy')
             out.append('/-- `vakt.policy.Policy.%s` -/' % m)
-            out.append('def %s_Policy (%s : V) : M :=\n    %s\n' % (m.lstrip('_'), ' '.join('p_%s' % p for p in params), body))
+            out.append('def %s_Policy (%s : V) : M :=\n    %s\n' % (m.strip('_'), ' '.join('p_%s' % p for p in params), body))
             done.append(m)
+            tr.policy_emitted = getattr(tr, 'policy_emitted', set()) | {m}
         except Untranslatable as e:
             failed.append((m, str(e)))
     out.append('def translatedPolicy : List String := [%s]' % ', '.join('"%s"' % c for c in done))
@@ -988,6 +1079,20 @@ def translate_memory(repo):
     tr = Translator(ast.parse(open(os.path.join(repo, 'vakt', 'storage', 'abc.py')).read()))
     tr.effect_mode = 'store'
     one(tr, 'Storage', '_check_limit_and_offset', 'check_limit_and_offset_Storage', 'vakt.storage.abc.Storage._check_limit_and_offset')
+    try:
+        tr.effect_mode = 'gen'
+        f = tr.method('Storage', 'retrieve_all')
+        params = [a.arg for a in f.args.args]
+        tr.attrs, tr.fresh = set(), 0
+        env = {p: '(pure p_%s)' % p for p in params}
+        env['__y'] = '(pure y0)'
+        body = '(bindM cEmptyList fun y0 =>\n      %s)' % tr.block(f.body, env, 'Storage', end=lambda e: e['__y'])
+        out.append('/-- `vakt.storage.abc.Storage.retrieve_all` - a generator: the result is the list of what it yields; `self` is '
+                   'any storage (its `get_all`), `fuel` bounds the rounds of `while True` -/')
+        out.append('def retrieve_all_Storage (fuel : Nat) (%s : V) : M :=\n    %s\n' % (' '.join('p_%s' % p for p in params), body))
+        done.append(('retrieve_all', []))
+    except Untranslatable as e:
+        failed.append(('retrieve_all', str(e)))
     tr = Translator(ast.parse(open(os.path.join(repo, 'vakt', 'storage', 'memory.py')).read()))
     tr.effect_mode = 'store'
     for m in MEMORY_METHODS:
